@@ -20,8 +20,29 @@ fn label(l: &str) -> &'static str {
 		o => panic!("label {o}"),
 	}
 }
+thread_local! {
+	/// IP mode of the case being concretised: single-label hosts are spelled as IP literals (a renaming of the labels)
+	static IP_MODE: std::cell::Cell<bool> = const { std::cell::Cell::new(false) };
+}
+fn ip_literal(l: &str) -> &'static str {
+	match l {
+		"a" => "[::1]",
+		"b" => "[2001:db8::1]",
+		_ => "127.0.0.9",
+	}
+}
 fn host_text(h: &Value) -> String {
-	h.as_array().unwrap().iter().map(|l| label(l.as_str().unwrap())).collect::<Vec<_>>().join(".")
+	let ls = h.as_array().unwrap();
+	if IP_MODE.with(|m| m.get()) && ls.len() == 1 {
+		return ip_literal(ls[0].as_str().unwrap()).to_string();
+	}
+	ls.iter().map(|l| label(l.as_str().unwrap())).collect::<Vec<_>>().join(".")
+}
+/// can every allow-list entry of the case be renamed to an IP literal? (single labels, no wildcard; requests for other hosts
+/// are left out in that mode)
+fn ip_mode_possible(c: &Value) -> bool {
+	let single = |h: &Value| h.as_array().map(|a| a.len() == 1 && a[0] != "*").unwrap_or(false);
+	!c["list"].as_array().unwrap().is_empty() && c["list"].as_array().unwrap().iter().all(|e| single(&e["host"]))
 }
 
 fn entry_text(e: &Value, rng: &mut StdRng) -> String {
@@ -114,8 +135,29 @@ pub fn replay(cases: &[Value], out: &mut Out) {
 		for (i, c) in cases.iter().enumerate() {
 			for k in 0..k_concretisations() {
 				let mut rng = rng_for(i, k);
-				let entries: Vec<String> = c["list"].as_array().unwrap().iter().map(|e| entry_text(e, &mut rng)).collect();
-				let layer = match HostFilterLayer::new(entries.iter().map(|s| s.as_str())) {
+				// every other eligible case names its hosts by IP literals; entries that are `ip:port` are then handed to the layer
+				// as `SocketAddr` values (the other way of configuring it) when all of them are
+				let ip_mode = ip_mode_possible(c) && (i + k) % 2 == 0;
+				IP_MODE.with(|m| m.set(ip_mode));
+				let entries: Vec<String> = if ip_mode {
+					c["list"].as_array().unwrap().iter().map(|e| {
+						let h = host_text(&e["host"]);
+						match e["port"].as_str().unwrap() {
+							"default" => h,
+							"any" => format!("{h}:*"),
+							p => format!("{h}{}", port_suffix(p)),
+						}
+					}).collect()
+				} else {
+					c["list"].as_array().unwrap().iter().map(|e| entry_text(e, &mut rng)).collect()
+				};
+				let addrs: Vec<std::net::SocketAddr> = entries.iter().filter_map(|e| e.parse().ok()).collect();
+				let built = if ip_mode && !entries.is_empty() && addrs.len() == entries.len() {
+					HostFilterLayer::new(addrs.clone())
+				} else {
+					HostFilterLayer::new(entries.iter().map(|s| s.as_str()))
+				};
+				let layer = match built {
 					Ok(l) => l,
 					Err(e) => {
 						out.verdict(i, k, Some("allow-list-entry-rejected".into()), json!({"entries": entries, "err": e.to_string()}));
@@ -129,6 +171,12 @@ pub fn replay(cases: &[Value], out: &mut Out) {
 				for rv in c["reqs"].as_array().unwrap() {
 					let r = &rv["r"];
 					let allowed: Vec<&str> = rv["v"].as_array().unwrap().iter().map(|v| v.as_str().unwrap()).collect();
+					if ip_mode && r["k"] != "bad" && (!matches!(r["form"].as_str().unwrap(), "plain" | "userinfo") || r["uri"] == "otherHost") {
+						continue; // upper-casing, a trailing dot or a zero-padded port are spellings of names, not of IP literals
+					}
+					if ip_mode && ((r["k"] == "bad" && r["why"] == "nonAscii") || r["host"].as_array().map(|a| a.len() != 1 || a[0] == "*").unwrap_or(true)) {
+						continue;
+					}
 					let (hosts, target) = request_parts(r, &mut rng);
 					let mut rb = http::Request::builder().method("POST").uri(target.as_str());
 					let mut ok = true;
